@@ -41,7 +41,7 @@ Plus(a, b) == IF a = Inf \/ b = Inf THEN Inf ELSE a + b
 NoDl == -1           \* deadline() when nothing is outstanding (the code returns 0, an absolute time long past)
 Idle == [op |-> "idle", e |-> "", a |-> "", to |-> 0, name |-> "", st |-> "idle", bvt |-> 0, dn |-> {},
          bres |-> FALSE, ires |-> 0, sres |-> {},
-         lo |-> 0, hi |-> 0, shi |-> 0, sawQuiet |-> FALSE, sawEmpty |-> FALSE, ovl |-> FALSE, half |-> FALSE]
+         lo |-> 0, hi |-> 0, shi |-> 0, sfree |-> -1, sawQuiet |-> FALSE, sawEmpty |-> FALSE, ovl |-> FALSE, half |-> FALSE]
 
 Mutators == {"new", "set", "clear", "queue"}
 Readers == {"wait", "wfor", "deadline"}          \* calls that look at the whole set of sub-events
@@ -59,15 +59,17 @@ XInit == /\ defname = ""
          /\ call = [th \in Threads |-> Idle]
 
 (* ghost fields of the calls in flight follow every change of pending / flusher *)
-Follow(c, p2, f2) ==
+Follow(c, p2, f2, hiT) ==
    IF c.op \in Readers /\ c.st \in {"called", "snapped"}
    THEN [c EXCEPT !.sawEmpty = @ \/ p2 = {},
+                  \* since when could a wait() have looked at the events (nobody flushing = the lock is free)?
+                  !.sfree = IF c.st # "called" THEN @ ELSE IF f2 # None THEN -1 ELSE IF @ = -1 THEN hiT ELSE @,
                   !.sawQuiet = @ \/ (c.st = "snapped" /\ p2 = {} /\ f2 = None),
                   !.ovl = @ \/ p2 # pending]
    ELSE c
 Effect(th, rec, p2, f2, hiT) ==
    /\ pending' = p2 /\ flusher' = f2
-   /\ call' = [x \in Threads |-> IF x = th THEN rec ELSE Follow(call[x], p2, f2)]
+   /\ call' = [x \in Threads |-> IF x = th THEN rec ELSE Follow(call[x], p2, f2, hiT)]
    /\ qsince' = IF p2 = {} /\ f2 = None THEN (IF Quiet THEN qsince ELSE hiT) ELSE -1
 
 (* ------------------------------------------------------------------ begin of a call *)
@@ -77,6 +79,7 @@ Begin(th, vt, op, e, a, to, name) ==
         IF x = th
         THEN [Idle EXCEPT !.op = op, !.e = e, !.a = a, !.to = to, !.name = name, !.st = "called", !.bvt = vt,
                           !.sawEmpty = (pending = {}), !.dn = {defname},
+                          !.sfree = IF flusher = None THEN vt ELSE -1,
                           !.half = \E y \in Threads \ {th} : call[y].op = "new" /\ call[y].st # "idle"]
         ELSE IF op = "new" /\ call[x].op \in Readers /\ call[x].st \in {"called", "snapped"}
              THEN [call[x] EXCEPT !.half = TRUE] ELSE call[x]]
@@ -142,15 +145,16 @@ Act(th, a, raises, hiT) ==
    /\ Effect(th, call[th], pending, IF queued' = <<>> THEN None ELSE th, hiT)
    /\ UNCHANGED <<created, dl, nm, dto, defname>>
 
-(* wait(to), first point: which events are outstanding decides the limit *)
+(* wait(to), first point: which events are outstanding decides the limit.  The look is taken as soon as nobody *)
+(* is flushing (sfree), not later: a thread that can run does not see time pass.                              *)
 Snap(th, hiT) ==
    LET c == call[th]
        m == MaxDl(pending) IN
    /\ c.op = "wait" /\ c.st = "called" /\ flusher = None
    /\ Effect(th, IF pending = {}
-                 THEN [c EXCEPT !.st = "snapped", !.sawQuiet = TRUE, !.lo = Inf, !.hi = Inf, !.shi = hiT]
-                 ELSE [c EXCEPT !.st = "snapped", !.lo = Min(m, Plus(c.bvt, c.to)), !.hi = Min(m, Plus(hiT, c.to)),
-                                !.shi = hiT],
+                 THEN [c EXCEPT !.st = "snapped", !.sawQuiet = TRUE, !.lo = Inf, !.hi = Inf, !.shi = c.sfree]
+                 ELSE [c EXCEPT !.st = "snapped", !.lo = Min(m, Plus(c.bvt, c.to)), !.hi = Min(m, Plus(c.sfree, c.to)),
+                                !.shi = c.sfree],
              pending, None, hiT)
    /\ UNCHANGED <<created, dl, nm, queued, ran, dropped, dto, defname>>
 
